@@ -130,26 +130,32 @@ def If(cond, true_value, false_value):
         else:
             raise ClaripyTypeError(f"can't convert {type(args[2])} to {ty}")
 
+    # Every shortcut below drops at least one argument, so it has to honour the annotation contract like any
+    # other rewrite: relocatable annotations of the arguments move to the result, and the shortcut is not taken
+    # if it would eliminate a sub-expression carrying a non-eliminatable annotation.
+    shortcut = None
     if is_true(args[0]):
-        return args[1].append_annotations(args[0].annotations)
-    if is_false(args[0]):
-        return args[2].append_annotations(args[0].annotations)
-
-    if isinstance(args[1], Base) and args[1].op == "If" and args[1].args[0] is args[0]:
-        return If(args[0], args[1].args[1], args[2])
-    if isinstance(args[1], Base) and args[1].op == "If" and args[1].args[0] is Not(args[0]):
-        return If(args[0], args[1].args[2], args[2])
-    if isinstance(args[2], Base) and args[2].op == "If" and args[2].args[0] is args[0]:
-        return If(args[0], args[1], args[2].args[2])
-    if isinstance(args[2], Base) and args[2].op == "If" and args[2].args[0] is Not(args[0]):
-        return If(args[0], args[1], args[2].args[1])
-
-    if args[1] is args[2]:
-        return args[1]
-    if args[1] is true() and args[2] is false():
-        return args[0]
-    if args[1] is false() and args[2] is true():
-        return ~args[0]
+        shortcut = args[1]
+    elif is_false(args[0]):
+        shortcut = args[2]
+    elif isinstance(args[1], Base) and args[1].op == "If" and args[1].args[0] is args[0]:
+        shortcut = If(args[0], args[1].args[1], args[2])
+    elif isinstance(args[1], Base) and args[1].op == "If" and args[1].args[0] is Not(args[0]):
+        shortcut = If(args[0], args[1].args[2], args[2])
+    elif isinstance(args[2], Base) and args[2].op == "If" and args[2].args[0] is args[0]:
+        shortcut = If(args[0], args[1], args[2].args[2])
+    elif isinstance(args[2], Base) and args[2].op == "If" and args[2].args[0] is Not(args[0]):
+        shortcut = If(args[0], args[1], args[2].args[1])
+    elif args[1] is args[2]:
+        shortcut = args[1]
+    elif args[1] is true() and args[2] is false():
+        shortcut = args[0]
+    elif args[1] is false() and args[2] is true():
+        shortcut = ~args[0]
+    if shortcut is not None:
+        shortcut = operations._handle_annotations(shortcut, args)
+        if shortcut is not None:
+            return shortcut
 
     if issubclass(ty, Bits):
         return ty("If", tuple(args), length=args[1].length)
